@@ -128,9 +128,12 @@ class BestIndividualRelativeChangeTolerance(EvolvingAnsatzMinimumEigensolverBase
             self._previous_expectation_value = population_evaluation.best_expectation_value
             return False
 
-        relative_change = abs(self._previous_expectation_value - population_evaluation.best_expectation_value) / abs(
-            self._previous_expectation_value
-        )
+        # A change can never be small in relation to a reference value of zero.
+        relative_change = float("inf")
+        if self._previous_expectation_value != 0:
+            relative_change = abs(
+                self._previous_expectation_value - population_evaluation.best_expectation_value
+            ) / abs(self._previous_expectation_value)
         self._previous_expectation_value = population_evaluation.best_expectation_value
         self._relative_change_history.append(relative_change)
 
@@ -319,7 +322,11 @@ class PopulationChangeRelativeTolerance(EvolvingAnsatzMinimumEigensolverBaseTerm
                 ),
             )
 
-            self._relative_change_history.append(distance / abs(last_population_median_expectation))
+            # A change can never be small in relation to a reference value of zero.
+            if last_population_median_expectation != 0:
+                self._relative_change_history.append(distance / abs(last_population_median_expectation))
+            else:
+                self._relative_change_history.append(float("inf"))
 
         self._last_population_evaluation = population_evaluation
 
